@@ -2303,3 +2303,117 @@ RS.rules.sort(key=lambda r: r.id)
 # --- explanation addendum (generated catalogue in DESIGN.md reads RS.explanation)
 RS.explanation += ' Added after the seed waves and the audit: the pattern word of a trim modifier is expanded on every path (R4b); an expansion error in a redirection operand is handled as an expansion error (R4c).'
 RS.explanation += ' (R8) every read of the shell variables whose result reaches the Ifs given to split_into is dominated by the Ready edge of the await of the same word\'s initial expansion, so ${IFS=x} / $((IFS=..)) inside the word decide how that word is split.'
+
+
+# =====================================================================================
+# C01.R9 - the transducer is applied to every field (closes the gap between R1 and R6)
+# =====================================================================================
+_IS_SOME = ['core::option::Option::<T>::is_some']
+_IS_NONE = ['core::option::Option::<T>::is_none']
+
+
+def _r9_params(cx, body):
+    """(field, ifs, out) parameter locals of split_into / split, by type."""
+    ps = list(range(1, body.argc + 1))
+    field = [l for l in ps if (ATTR + 'AttrField') in body.locals[l]['ty']]
+    ifs = [l for l in ps if IFS in body.locals[l]['ty']]
+    out = [l for l in ps if body.locals[l]['ty'].startswith('&mut ') and l not in field and l not in ifs]
+    cx.require(len(field) == 1 and len(ifs) == 1, '%s has no single AttrField and single Ifs parameter' % body.fn)
+    return field[0], ifs[0], out
+
+
+def _r9_governed(F, body, du, b, t, t_ranges):
+    """The delivery call t in block b happens only for a range the transducer yielded: it consumes a value computed from the
+    Ranges iterator (iterator-adaptor form, or the field cut at a yielded range), or it is control dependent on `Some` of a value
+    obtained from that iterator (while-let / for / match / if-let / is_some() / !is_none())."""
+    if any(Q.operand_local(a) in t_ranges for a in t['a']):
+        return 'data'
+    for org, lab, edge in Q.implied_conditions(F, body, du, b):
+        org, lab = Q.peel_not(du, org, lab)
+        if org['k'] == 'discr' and org['pl']['l'] in t_ranges and lab == ('variant', 'Some'):
+            return 'control'
+        if org['k'] == 'call' and any(Q.operand_local(a) in t_ranges for a in org['t']['a']):
+            if (Q.callee_is(org['t'], _IS_SOME) and lab == ('bool', True)) or (Q.callee_is(org['t'], _IS_NONE) and lab == ('bool', False)):
+                return 'control'
+    return None
+
+
+@RS.rule('C01.R9', 'K-PASS', 'split_into runs the Ranges transducer (Ifs::ranges, given Ifs, given field) on every path to a return and '
+         'delivers a field only for a range it yielded: nothing lets a field bypass splitting / empty-field removal')
+def r9(cx):
+    from facts import same_module_private
+    F = cx.F
+    fn = SPLIT + 'split_into'
+    base = F.main_body(fn)
+    priv = same_module_private(F, base.root)
+    # private helpers of the module are seen in place; the transducer itself stays a call
+    body = F.inlined(base, accept=lambda c: priv(c) and not Q.name_matches(c, RANGES_CALLS[0]) and c != RANGES_NEXT)
+    cx.fn(body.fn)
+    for h in getattr(body, 'inlined_from', []):
+        cx.fn(h)
+    du = Q.DefUse(body)
+    field_l, ifs_l, outs = _r9_params(cx, body)
+    cx.require(len(outs) == 1, '%s has no single `&mut` output collection parameter' % fn)
+    out_l = outs[0]
+    t_field = Q.forward_taint(body, {field_l})
+    t_ifs = Q.forward_taint(body, {ifs_l})
+    t_out = Q.forward_taint(body, {out_l})
+
+    allrc = Q.find_calls(body, RANGES_CALLS)
+    rc = [(b, t) for b, t in allrc if len(t['a']) == 2 and Q.operand_local(t['a'][0]) in t_ifs and Q.operand_local(t['a'][1]) in t_field]
+    for b, t in allrc:
+        cx.site('%s: Ifs::ranges(%s) at %s%s' % (fn, ', '.join(str(n) for n in Q.arg_names(body, du, t)), body.loc(t),
+                                                '' if (b, t) in rc else ' (NOT the given Ifs over the given field)'))
+    if not rc:
+        cx.violation(fn, 'splitter-not-applied', 'split_into does not run Ifs::ranges with the Ifs it was given over the characters of the '
+                     'field it was given: fields are not split at $IFS and entirely empty unquoted fields are not removed',
+                     loc=body.loc(body.d))
+        return
+    p = Q.must_pass(body, [0], {b for b, _ in rc})
+    cx.site('%s: %d return block(s); every path from the entry %s the transducer' % (fn, len(body.return_blocks()),
+                                                                                       'passes' if p is None else 'does NOT always pass'))
+    if p is not None:
+        cx.violation(fn, 'splitter-skipped', 'a path through split_into returns without running the Ranges transducer on the field: whatever '
+                     'decides that (the IFS value, the field) the field is then neither split nor - if it consists only of empty unquoted '
+                     'expansions - removed: `IFS=; e=; set -- $e; echo $#` must print 0 (POSIX XCU 2.6.5)',
+                     loc=body.loc(body.term(p[min(len(p) - 1, 1)])), path=Q.render_path(body, p))
+
+    t_ranges = Q.forward_taint(body, {t['dest']['l'] for _, t in rc})
+    deliveries = [(b, t) for b, t in body.calls() if any(Q.operand_local(a) in t_out for a in t['a'])]
+    cx.floor(len(deliveries), 1, 'calls in split_into that receive the output collection')
+    for b, t in deliveries:
+        how = _r9_governed(F, body, du, b, t, t_ranges)
+        callee = H.short(t['f'].get('def') or t['f'].get('decl') or '?')
+        cx.site('%s: output collection handed to %s at %s: %s' % (fn, callee, body.loc(t),
+                {'data': 'consumes a value computed from the Ranges iterator', 'control': 'only after the Ranges iterator yielded Some(range)',
+                 None: 'NOT governed by the Ranges iterator'}[how]))
+        if how is None:
+            cx.violation(fn, 'delivery-bypasses-splitter:%s' % callee, 'split_into adds a field to the results that is not one of the '
+                         'ranges yielded by the Ranges transducer (the call neither consumes a value computed from Ifs::ranges nor is '
+                         'it reached only after that iterator returned Some): a field can reach the results unsplit, and a field made '
+                         'only of empty unquoted expansions is kept instead of removed (`IFS=; e=; set -- $e; echo $#` prints 1)',
+                         loc=body.loc(t))
+
+    # the convenience wrapper returns what split_into delivered
+    wfn = SPLIT + 'split'
+    wb = F.inlined(wfn, accept=lambda c: priv(c) and c != fn)
+    cx.fn(wb.fn)
+    wdu = Q.DefUse(wb)
+    wfield, wifs, _ = _r9_params(cx, wb)
+    wt_field = Q.forward_taint(wb, {wfield})
+    wt_ifs = Q.forward_taint(wb, {wifs})
+    wc = [(b, t) for b, t in Q.find_calls(wb, [fn]) if len(t['a']) == 3 and Q.operand_local(t['a'][0]) in wt_field
+          and Q.operand_local(t['a'][1]) in wt_ifs]
+    cx.site('%s: split_into(the field, the Ifs, ..) x%d' % (wfn, len(wc)))
+    wp = Q.must_pass(wb, [0], {b for b, _ in wc}) if wc else [0]
+    if wp is not None:
+        cx.violation(wfn, 'splitter-skipped', 'a path through split returns without passing the field and the Ifs to split_into',
+                     loc=wb.loc(wb.term(wp[min(len(wp) - 1, 1)])) if wc else wb.loc(wb.d), path=Q.render_path(wb, wp) if wc else None)
+    else:
+        ret_src = _arg_local_behind_ref(wdu, wc[0][1]['a'][2])
+        if ret_src is None or 0 not in Q.forward_taint(wb, {ret_src}) and ret_src != 0:
+            cx.violation(wfn, 'result-not-from-split_into', 'split does not return the collection that split_into filled', loc=wb.loc(wc[0][1]))
+
+
+RS.rules.sort(key=lambda r: r.id)
+RS.explanation += ' (R9) in split_into every path from the entry to a return runs Ifs::ranges with the given Ifs over the given field, and every call that receives the output collection either consumes a value computed from that Ranges iterator or is dominated by a Some edge of a value obtained from it: the transducer proved in R1 is applied to every field that R6 sends to split_into, so no value of IFS or of the field bypasses splitting and empty-field removal.'
